@@ -3,14 +3,15 @@ CONSTANTS
   Sigs = {"traces", "metrics"}
   Reqs = {}
   Variant = "real"
-  Configs = {"gh", "g"}
+  Configs = {"gh", "g", "h"}
   Kinds = {"same", "fresh"}
-  MaxLen = 11
-  MaxProbe = 1
+  MaxLen = 13
+  MaxProbe = 2
   MaxHold = 1
-  MaxSd = 2
+  MaxSd = 3
   GSet = {1, 2}
 CONSTRAINT Bound
+VIEW View
 ACTION_CONSTRAINT InOrder
 ACTION_CONSTRAINT LifeOrder
 INVARIANT TypeOK
